@@ -5,9 +5,10 @@ import json, sys
 pid = sys.argv[1]
 props = {json.loads(l)['id']: json.loads(l) for l in open('/verif/properties.jsonl')}
 p = props[pid]
+BASE = sys.argv[2] if len(sys.argv) > 2 else "/tmp/seed"
 print(f"""You are helping to evaluate a verification tool for the Rust crate `hpke` (rozbb/rust-hpke, an RFC 9180 HPKE implementation). Your job is to act as a realistic source of bugs.
 
-You have your own scratch git worktree of the crate at /tmp/seed/{pid} (work ONLY inside that directory; never touch /repo or /verif, and do not read anything under /verif). Build offline only: always pass `--offline` to cargo and set `CARGO_TARGET_DIR=/tmp/seed/{pid}/target`. A Cargo.lock is already there. There is no network.
+You have your own scratch git worktree of the crate at {BASE}/{pid} (work ONLY inside that directory; never touch /repo or /verif, and do not read anything under /verif). Build offline only: always pass `--offline` to cargo and set `CARGO_TARGET_DIR={BASE}/{pid}/target`. A Cargo.lock is already there. There is no network.
 
 Here is a semantic property that the crate is supposed to satisfy:
 
@@ -23,9 +24,9 @@ Prefer changes that look like plausible refactoring slips, optimisations or merg
 
 For each change also write a demonstration: a small integration test file (e.g. `tests/seed_demo_a.rs`, using only the crate's public API; it may also use the `cfg(hpke_verif)` hooks that exist in the tree, e.g. `verif_set_seq`, if built with `RUSTFLAGS="--cfg hpke_verif"`) or an example program, that FAILS with the change applied and PASSES on the unmodified tree. Verify both directions yourself.
 
-Deliverables, all inside /tmp/seed/{pid}/_seed/ :
+Deliverables, all inside {BASE}/{pid}/_seed/ :
   - A/patch.diff : output of `git diff` for change A ONLY against the worktree's HEAD, touching only files under src/ (or Cargo.toml) - NOT the demo file. It must apply with `git apply` to a clean checkout of the same commit.
   - A/demo.rs (the demonstration test/example source) and A/notes.md saying: what the change is, what exactly it needs in order to manifest, the exact commands you ran (tests, demo with and without the change) and their results.
   - the same under B/.
-When you are done leave the worktree's tracked files unmodified (git checkout -- . ; remove any demo files you put in tests/ or examples/), keep only _seed/, and delete /tmp/seed/{pid}/target to free disk space.
+When you are done leave the worktree's tracked files unmodified (git checkout -- . ; remove any demo files you put in tests/ or examples/), keep only _seed/, and delete {BASE}/{pid}/target to free disk space.
 Your final message should be a short summary (a few lines per change). Do not spend effort on anything else.""")
